@@ -56,6 +56,8 @@ type Contract struct {
 	Ensures   []*Clause
 	Assumes   []*Clause
 	Captures  []*Clause
+	Preserves []*SExpr
+	PreservesSrc []string
 	Modifies  []*SExpr
 	HasMod    bool
 	Decreases *Clause
@@ -132,7 +134,7 @@ func NewContractSet() *ContractSet {
 
 var reFuncHdr = regexp.MustCompile(`^func\s+(?:\(([^)]*)\)\s*)?([A-Za-z_$][\w$.\[\],]*)`)
 var rePropLabel = regexp.MustCompile(`^\s*((?:C\d+,?)+/)?([A-Za-z_][\w\-.]*)\s*:\s+`)
-var keywords = []string{"guarded", "captures", "nonnilpkg", "immutable", "assumes", "typeinv", "purepkg", "noreturn", "func", "iface", "props", "requires", "ensures", "modifies", "decreases", "may_panic", "no_panic", "pure", "trusted", "opaque", "inline", "loop", "ghost", "spec", "define", "axiom", "package"}
+var keywords = []string{"preserves", "guarded", "captures", "nonnilpkg", "immutable", "assumes", "typeinv", "purepkg", "noreturn", "func", "iface", "props", "requires", "ensures", "modifies", "decreases", "may_panic", "no_panic", "pure", "trusted", "opaque", "inline", "loop", "ghost", "spec", "define", "axiom", "package"}
 
 func startsWithKeyword(s string) string {
 	for _, k := range keywords {
@@ -418,6 +420,11 @@ func (cs *ContractSet) LoadFile(path, pkg string, trusted bool) {
 			case "modifies":
 				cur.HasMod = true
 				cur.Modifies = append(cur.Modifies, parseLocs(rest, l.line)...)
+			case "preserves":
+				// locations that keep their value although the frame says "everything":
+				// restored at call sites, and an obligation of the function itself
+				cur.Preserves = append(cur.Preserves, parseLocs(rest, l.line)...)
+				cur.PreservesSrc = append(cur.PreservesSrc, rest)
 			case "decreases":
 				cur.Decreases = parseClause(rest, l.line)
 			case "may_panic":
